@@ -2,6 +2,9 @@ mod effect;
 mod request;
 mod resolve;
 
+#[cfg(crux_verif)]
+use crate::verif::sync::RwLock;
+#[cfg(not(crux_verif))]
 use std::sync::RwLock;
 
 pub use effect::Effect;
@@ -84,16 +87,12 @@ where
     // used in docs/internals/runtime.md
     // ANCHOR: process_event
     pub fn process_event(&self, event: A::Event) -> Vec<A::Effect> {
-        #[cfg(crux_verif)]
-        let model_scope = crate::verif::LockScope::new("model");
         let mut model = self.model.write().expect("Model RwLock was poisoned.");
 
         let command = self.app.update(event, &mut model, &self.capabilities);
 
         // drop the model here, we don't want to hold the lock for the process() call
         drop(model);
-        #[cfg(crux_verif)]
-        drop(model_scope);
 
         self.command_spawner.spawn(command);
         self.process()
@@ -134,8 +133,6 @@ where
         loop {
             #[cfg(crux_verif)]
             crate::verif::point("core.process.event");
-            #[cfg(crux_verif)]
-            let model_scope = crate::verif::LockScope::new("model");
             // Take the model lock before taking the next event off the queue: when several
             // threads run this loop at once, events are then applied in the order they were
             // emitted (taking the event first lets another thread apply a later event earlier).
@@ -148,8 +145,6 @@ where
                 .update(capability_event, &mut model, &self.capabilities);
 
             drop(model);
-            #[cfg(crux_verif)]
-            drop(model_scope);
 
             self.command_spawner.spawn(command);
             self.executor.run_all();
@@ -163,8 +158,6 @@ where
 
     /// Get the current state of the app's view model.
     pub fn view(&self) -> A::ViewModel {
-        #[cfg(crux_verif)]
-        let _model_scope = crate::verif::LockScope::new("model");
         let model = self.model.read().expect("Model RwLock was poisoned.");
 
         self.app.view(&model)
